@@ -65,7 +65,7 @@ class HookScript:
 
 def make_watcher(world, conf):
     from circus.watcher import Watcher
-    kw = {k: conf[k] for k in WATCHER_KEYS if k in conf}
+    kw = {k: conf[k] for k in WATCHER_KEYS if k in conf and not (k == 'working_dir' and conf[k] is None)}
     hooks = {}
     for hname, (outcome, ignore) in (conf.get('hooks') or {}).items():
         hooks[hname] = (HookScript(world, conf['name'], hname, outcome), bool(ignore))
